@@ -1133,8 +1133,9 @@ def emit_ins(em, fc, lb, ins, L, phi_moves):
             if ins.pred in ('eq','ne'):
                 L.append('  %s = (u1)((void*)%s %s (void*)%s);' % (d, a, ICMP[ins.pred], b))
             else:
+                # LLVM pointer relational compare = address compare without UB (null < null is simply false)
                 o = ICMP.get(ins.pred) or ICMPS[ins.pred]
-                L.append('  %s = (u1)((char*)%s %s (char*)%s);' % (d, a, o, b))
+                L.append('  %s = (u1)((u64)%s %s (u64)%s);' % (d, a, o, b))
         elif ins.pred in ICMP:
             L.append('  %s = (u1)(%s %s %s);' % (d, a, ICMP[ins.pred], b))
         else:
